@@ -1141,7 +1141,7 @@ fn diff_instance(
     // Edges (skeleton plane): map by EdgeId for stable diff independent of insertion order.
     let before_edges = edges_by_id(before);
     let after_edges = edges_by_id(after);
-    diff_edges(ops, warp_id, after, &before_edges, &after_edges);
+    diff_edges(ops, warp_id, before, after, &before_edges, &after_edges);
     diff_edge_attachments(
         ops,
         warp_id,
@@ -1153,17 +1153,22 @@ fn diff_instance(
     );
 }
 
-/// Returns `true` when the diff must emit `DeleteEdge` before the `UpsertEdge` of a changed
-/// edge record: the edge moved to another source bucket, or it was retargeted away from a
-/// node that no longer exists afterwards (node deletes replay before edge upserts, and a
-/// node with an incident edge cannot be deleted).
+/// Returns `true` when the diff must emit `DeleteEdge` before the `UpsertEdge` of an edge that
+/// exists on both sides: the edge moved to another source bucket, or one of its previous
+/// endpoints is deleted by this delta (node deletes replay before edge upserts, and a node
+/// with an incident edge cannot be deleted — this also holds when the edge record itself is
+/// unchanged or keeps pointing at the deleted node).
 fn edge_must_be_recreated(
+    before: &GraphStore,
     after: &GraphStore,
     rec_before: &EdgeRecord,
     rec_after: &EdgeRecord,
 ) -> bool {
+    let node_deleted =
+        |node: &NodeId| before.nodes.contains_key(node) && !after.nodes.contains_key(node);
     rec_before.from != rec_after.from
-        || (rec_before.to != rec_after.to && !after.nodes.contains_key(&rec_before.to))
+        || node_deleted(&rec_before.to)
+        || node_deleted(&rec_before.from)
 }
 
 fn diff_nodes(
@@ -1240,6 +1245,7 @@ fn diff_node_attachments(
 fn diff_edges(
     ops: &mut Vec<WarpOp>,
     warp_id: WarpId,
+    before: &GraphStore,
     after: &GraphStore,
     before_edges: &std::collections::BTreeMap<ContentHash, EdgeRecord>,
     after_edges: &std::collections::BTreeMap<ContentHash, EdgeRecord>,
@@ -1263,10 +1269,11 @@ fn diff_edges(
                 });
             }
             Some(rec_before) => {
-                if rec_before == rec_after {
+                let recreate = edge_must_be_recreated(before, after, rec_before, rec_after);
+                if rec_before == rec_after && !recreate {
                     continue;
                 }
-                if edge_must_be_recreated(after, rec_before, rec_after) {
+                if recreate {
                     ops.push(WarpOp::DeleteEdge {
                         warp_id,
                         from: rec_before.from,
@@ -1300,7 +1307,7 @@ fn diff_edge_attachments(
         // survives must be re-established even though its value did not change.
         let reparented = before_edges
             .get(id)
-            .is_some_and(|rec_before| edge_must_be_recreated(after, rec_before, rec_after));
+            .is_some_and(|rec_before| edge_must_be_recreated(before, after, rec_before, rec_after));
         if before_val == after_val && !(reparented && after_val.is_some()) {
             continue;
         }
